@@ -137,6 +137,21 @@ class WithProps:
     def m(self): return 3
     attr = 5
 def func(a: int, b: str = "x", *c: float, d: bool = True, **e: bytes) -> int: ...
+class Outer:
+    class Mid:
+        @dataclasses.dataclass
+        class Inner:
+            a: int
+        class InnerStr(str): pass
+    class Side(dict): pass
+def _local():
+    @dataclasses.dataclass
+    class Local:
+        a: int
+    class LocalOuter:
+        class LocalInner(list): pass
+    return Local, LocalOuter.LocalInner
+Local, LocalInner = _local()
 '''
 
 _CAT = None
@@ -172,6 +187,12 @@ def catalogue():
     for n in ["MyStr", "MyInt", "MyFloat", "MyBytes", "MyDict", "MyList", "MySet", "MyTuple", "MyDate", "MyDatetime", "MyTime",
               "MyDelta", "MyUUID", "MyDecimal", "MyFraction", "MyPath", "MyMapping", "MySeq", "MyIter", "E", "IE", "SE"]:
         add(f"user.{n}", N[n], N[n], flavour="subclass")
+    # nested and function-local classes (qualified names with several components)
+    add("user.Outer.Mid.Inner", N["Outer"].Mid.Inner, N["Outer"].Mid.Inner, flavour="dataclass")
+    add("user.Outer.Mid.InnerStr", N["Outer"].Mid.InnerStr, N["Outer"].Mid.InnerStr, flavour="subclass")
+    add("user.Outer.Side", N["Outer"].Side, N["Outer"].Side, flavour="subclass")
+    add("user.<locals>.Local", N["Local"], N["Local"], flavour="dataclass")
+    add("user.<locals>.LocalOuter.LocalInner", N["LocalInner"], N["LocalInner"], flavour="subclass")
     # ABCs and typing aliases, bare and parameterised
     abc1 = ["Iterable", "Iterator", "Collection", "Sequence", "MutableSequence", "Set", "MutableSet", "Reversible", "KeysView", "ValuesView", "Container"]
     abc2 = ["Mapping", "MutableMapping", "ItemsView"]
@@ -211,9 +232,9 @@ def catalogue():
     base = list(cat)
     for e in base:
         if e["kind"] in ("class",) or e["subscripted"] or e["kind"] in ("abc", "typing"):
-            nt = typing.NewType("NT_" + re.sub(r"\\W", "_", e["name"]), e["obj"])
+            nt = typing.NewType("NT_" + re.sub(r"\W", "_", e["name"]), e["obj"])
             add(f"NewType({e['name']})", nt, e["resolved"], e["subscripted"], 1, "newtype", e["flavour"], e["abstract_of"])
-            al = typing.TypeAliasType("AL_" + re.sub(r"\\W", "_", e["name"]), e["obj"])
+            al = typing.TypeAliasType("AL_" + re.sub(r"\W", "_", e["name"]), e["obj"])
             add(f"alias({e['name']})", al, e["resolved"], e["subscripted"], 1, "alias", e["flavour"], e["abstract_of"])
     for e in [x for x in cat if x["kind"] == "newtype"][::5]:
         nt2 = typing.NewType("NT2_" + e["obj"].__name__, e["obj"])
@@ -351,11 +372,24 @@ def check_catalogue(col, lo=0, step=1):
             elif e["flavour"] == "stdlib" and obj in STDLIB:
                 judge("isstructuredtype", False, call("isstructuredtype", obj))
             # name / qualname of classes
-            for pname, want_s in (("name", obj.__name__), ("qualname", obj.__qualname__)):
+            for pname, want_s in (("name", obj.__name__), ("qualname", obj.__qualname__.replace("<locals>.", ""))):
                 col.ev()
                 r1, _ = call(pname, obj)
                 if r1[0] == "exc" or r1[1] != want_s:
                     col.violation("agrees-with-runtime", {"predicate": pname, "object": name}, f"{pname}({name}) = {r1[1]!r}, class says {want_s!r}", bucket=pname)
+        elif getattr(obj, "__name__", None) is not None:
+            # ABCs, typing aliases, generic aliases, NewTypes and value aliases: the runtime's own __name__
+            col.ev()
+            col.nt(f"name|{name}")
+            r1, r2 = call("name", obj)
+            if r1[0] == "exc" or r1[1] != obj.__name__ or r2 != r1:
+                col.violation("agrees-with-runtime", {"predicate": "name", "object": name},
+                              f"name({name}) = {r1[1]!r}, runtime __name__ is {obj.__name__!r}", bucket="name|" + e["kind"])
+            rq = getattr(obj, "__qualname__", None)
+            r1, _ = call("qualname", obj)
+            if r1[0] == "exc" or (rq is not None and r1[1].rsplit(".", 1)[-1] != rq.rsplit(".", 1)[-1]):
+                col.violation("agrees-with-runtime", {"predicate": "qualname", "object": name},
+                              f"qualname({name}) = {r1[1]!r}, runtime __qualname__ is {rq!r}", bucket="qualname|" + e["kind"])
         if e["kind"] == "newtype" and e["wrapped"] == 1 and inspect.isclass(res) and not e["subscripted"] and e["abstract_of"] is None:
             judge("isbuiltintype", res in BUILTINS, call("isbuiltintype", obj))
             judge("isstdlibtype", res in STDLIB, call("isstdlibtype", obj))
